@@ -293,6 +293,29 @@ func (s *Sim) restartCycle(cycle int) bool {
 		s.violate("C20", "e", "restart-not-serving", "after Start (cycle %d) subscribe.%s was answered with %s", cycle, name, r.Resp.Error.Code)
 		return false
 	}
+	// In the first cycle a supervisor, as a program embedding the service would
+	// have one, waits for the cause on the stop channel and starts the service
+	// again at once ("Start/Stop may be repeated on the same service"): the
+	// service must then really be started, whatever Stop still has to do.
+	supervise := cycle == 1
+	type supRec struct {
+		got      bool
+		open     bool
+		cause    error
+		startErr error
+	}
+	var sup supRec
+	supDone := make(chan struct{})
+	if supervise {
+		go func() {
+			defer close(supDone)
+			err, ok := <-stopCh
+			sup.got, sup.open, sup.cause = true, ok, err
+			sup.startErr = s.gw.serv.Start()
+		}()
+	} else {
+		close(supDone)
+	}
 	done := make(chan struct{})
 	go func() {
 		defer close(done)
@@ -301,6 +324,38 @@ func (s *Sim) restartCycle(cycle int) bool {
 	if !s.awaitStop(done, 11500*time.Millisecond) {
 		s.violate("C20", "b", "stop-hang", "Stop after the restart (cycle %d) had not finished after 11.5 s of simulated time", cycle)
 		return false
+	}
+	if supervise {
+		if !s.awaitStop(supDone, 2*time.Second) {
+			s.violate("C20", "c", "no-cause", "Stop(nil) after the restart (cycle %d): a goroutine waiting on the stop channel was not woken, or its Start did not return", cycle)
+			return false
+		}
+		if !sup.open || sup.cause != nil {
+			s.violate("C20", "c", "wrong-cause", "Stop(nil) after the restart (cycle %d): stop channel closed=%v cause=%v", cycle, !sup.open, sup.cause)
+		}
+		s.settle()
+		if !c.eofSeen() {
+			s.violate("C20", "a", "client-not-closed", "Stop after the restart (cycle %d): client %s still has an open WebSocket", cycle, c.Name)
+		}
+		if sup.startErr != nil {
+			s.violate("C20", "e", "restart-failed", "Start called on receiving the cause of the stop (cycle %d) failed: %v", cycle, sup.startErr)
+			return false
+		}
+		if s.gw.serv.StopChannel() == nil {
+			s.violate("C20", "e", "restart-lost", "Start, called by a goroutine as soon as it received the cause on the stop channel (cycle %d), returned without error, but the service is stopped (it has no stop channel)", cycle)
+			return false
+		}
+		// stop what the supervisor started
+		done2 := make(chan struct{})
+		go func() {
+			defer close(done2)
+			s.gw.serv.Stop(nil)
+		}()
+		if !s.awaitStop(done2, 11500*time.Millisecond) {
+			s.violate("C20", "b", "stop-hang", "Stop after the supervised restart (cycle %d) had not finished after 11.5 s of simulated time", cycle)
+			return false
+		}
+		return true
 	}
 	select {
 	case err, ok := <-stopCh:
